@@ -15,7 +15,7 @@ wt=$(mktemp -d /tmp/seedwt-XXXX); rmdir "$wt"
 git -C /repo worktree add -q --detach "$wt" HEAD || exit 2
 res_suite=fail; res_demo_with=unknown; res_demo_without=unknown
 ( cd "$wt" && git apply "$dst/patch.diff" ) || { echo "patch does not apply"; git -C /repo worktree remove --force "$wt"; exit 2; }
-( cd "$wt" && go build ./... && go test -vet=off -count=1 ./... >/tmp/seed_suite_$id.log 2>&1 ) && res_suite=pass
+( cd "$wt" && go build ./... && go test -vet=off -count=1 ./... >/tmp/seed_suite_$id.log 2>&1 && cd cmd/arcaflow-codegen && go build ./... && go test -vet=off -count=1 ./... >>/tmp/seed_suite_$id.log 2>&1 ) && res_suite=pass
 cp "$dst/demo_test.go" "$wt/$pkgdir/zz_seed_demo_test.go"
 ( cd "$wt/$pkgdir" && go test -vet=off -count=1 -run '^TestSeedDemo$' . >/tmp/seed_demo_with_$id.log 2>&1 ) && res_demo_with=pass || res_demo_with=fail
 ( cd "$wt" && git checkout -q -- . )
